@@ -82,15 +82,34 @@ def expected_paths(steps, entry, structs):
     return out
 
 
+def private_json(ctx, gens):
+    """The translator's JSON side copies, regenerated into this run's scratch directory
+    (build/gen is shared between concurrent runs, also with private worktrees)."""
+    import json
+    d = os.path.join(ctx.scratch, "genjson")
+    rc, out = ctx.run([os.path.join(vlib.BIN, "translator"), "-repo", vlib.REPO, "-out", os.path.join(ctx.scratch, "genv"),
+                       "-json", d] + list(gens), cwd=vlib.REPO, timeout=300)
+    if rc != 0:
+        ctx.broken("translator(%s)" % ",".join(gens), out[-800:])
+        return None, d
+    return {g: json.load(open(os.path.join(d, g + ".json"))) for g in gens}, d
+
+
 def run(ctx):
     gen_ok = ctx.regen(["aststructs", "astwalk"])
     ctx.prove("C18")
     model = ctx.model("c18")
     impl = ctx.harness("c18")
-    structs_path = os.path.join(vlib.BUILD, "gen", "aststructs.json")
-    structs = ctx.gen_json("aststructs")
+    js, jdir = private_json(ctx, ["aststructs"])
+    if js is None:
+        return
+    structs_path = os.path.join(jdir, "aststructs.json")
+    structs = js["aststructs"]
+    # if the Walk switch left the translated fragment the static table is missing: the run is already
+    # broken, but the dynamic table, the model comparison and the direct oracle still search for a failing input
+    jw, _ = private_json(ctx, ["astwalk"])
     static = {}
-    for case in ctx.gen_json("astwalk"):
+    for case in (jw["astwalk"] if jw else []):
         for k in case["kinds"]:
             static[k] = case["steps"]
 
@@ -112,7 +131,8 @@ def run(ctx):
                      "Walk panics on a %s node (%s): %s" % (k, e["variant"], e["panic"]), e)
             continue
         if k not in static:
-            bad_learn.append((e, "no static case"))
+            if jw:
+                bad_learn.append((e, "no static case"))
             continue
         want = expected_paths(static[k], e, structs)
         if k == "Package":
@@ -137,7 +157,7 @@ def run(ctx):
         for variant in ("full", "noopt", "rand:%d" % (ctx.seed * 1000 + 1), "rand:%d" % (ctx.seed * 1000 + 2)):
             for prune in (0, 3):
                 cases.append("kind\t%s\t%s\t%d" % (k, variant, prune))
-    nsynth = ctx.n(2500, 60000)
+    nsynth = ctx.n(1500, 60000)
     for i in range(nsynth):
         seed = ctx.rng.next() % (1 << 62)
         depth = 1 + ctx.rng.below(4)
